@@ -7,6 +7,8 @@ def run(report, tier, seed):
     reps = pyside.run_tasks(py_common.tasks_for(py_common.SOLVER_FUNCS, tier))
     py_common.feed(report, reps, props=('C09',))
     py_common.feed_kernel_frames(report, tier)
+    py_common.feed_lapack_frames(report, tier)
+    py_common.feed_blas_frames(report, tier)
     py_common.install_replayer(report)
     report.floor = 5
     report.assumptions += [
